@@ -71,14 +71,15 @@ example :
     with a cached value and (a) an update that is processed (from the active or a higher-priority server) rejects
     that resource with an error string different from the one recorded by the previous rejection (DESIGN section 7
     reading: the code de-duplicates by `Err.Error()`; see `rejected_duplicate_already_reported` below), or (b) a
-    stream fails before any response and no fallback server is tried, or (c) `w` is a new watcher and the last
+    stream fails before any response and no fallback server is tried (it is not the active server's stream, or no
+    server is left, or nothing is uncached), or (c) `w` is a new watcher and the last
     update of the cached resource was NACKed. -/
 theorem ambient_iff_cached_and_rejected_or_stream_failed (a : Auth) (e : AEv) (w : Nat) (er : Err) :
     (⟨w, .ambErr er⟩ : Cb) ∈ (a.step e).cbs ↔
       (∃ p ∈ a.res, w ∈ p.2.watchers ∧ p.2.cache.isSome = true ∧
         ((∃ srv gen ver es t, e = .update srv gen p.1.typ ver es ∧ (revert a srv).2.2 = true ∧
             entLookup es p.1.name = some (.bad t) ∧ er = .nack t ∧ p.2.err.map (·.1) ≠ some t) ∨
-         (∃ srv, e = .failure srv false ∧ er = .conn ∧ (uncachedWatch a = false ∨ nextServer a srv = none)))) ∨
+         (∃ srv, e = .failure srv false ∧ er = .conn ∧ (uncachedWatch a = false ∨ fallbackTarget a srv = none)))) ∨
       (∃ k r t v, e = .watch k w ∧ lookup a.res k = some r ∧ r.cache.isSome = true ∧ r.status = .nacked ∧
           r.err = some (t, v) ∧ er = .nack t) := by
   cases e with
@@ -160,7 +161,7 @@ theorem resource_error_iff_no_valid (a : Auth) (e : AEv) (w : Nat) (er : Err) :
             p.2.status ≠ .notExist ∧ ignOf a srv = false) ∨
          (e = .dne p.1 ∧ er = .notFound) ∨
          (∃ srv, e = .failure srv false ∧ er = .conn ∧ p.2.cache = none ∧
-            (uncachedWatch a = false ∨ nextServer a srv = none)))) ∨
+            (uncachedWatch a = false ∨ fallbackTarget a srv = none)))) ∨
       (∃ k r, e = .watch k w ∧ lookup a.res k = some r ∧
         ((r.status = .nacked ∧ r.cache = none ∧ ∃ t v, r.err = some (t, v) ∧ er = .nack t) ∨
          (r.status = .notExist ∧ er = .notFound))) := by
